@@ -5,6 +5,10 @@ w="${VERIF_WORK:-$PWD/.work/c20.$$}"; mkdir -p "$w"
 if ! lib/instr_build.sh harness/c20 "$w/bin" 2> "$w/build.log"; then
   cat "$w/build.log" >&2; echo "TOOL-ERROR: instrumented build failed" >&2; exit 2
 fi
+# borrowed phase: C05's directed lagging-follower histories
+if ! INSTR_REUSE=1 lib/instr_build.sh harness/c05 "$w/bin-c05" 2> "$w/build2.log"; then
+  cat "$w/build2.log" >&2; echo "TOOL-ERROR: instrumented build failed" >&2; exit 2
+fi
 [ "${1:-}" = "--warm" ] && exit 0
 { flock -u 9 && exec 9>&-; } 2>/dev/null  # the build is done: release the shared lock on /repo's working tree (.work/repo.lock)
-VERIF_TUNABLE_snapshotOffset=0 exec "$w/bin" "$@"
+VERIF_BIN_C05="$w/bin-c05" VERIF_TUNABLE_snapshotOffset=0 exec "$w/bin" "$@"
